@@ -11,7 +11,7 @@ import miros.hsm as hsm                       # noqa: E402
 from miros.event import signals, return_status, Event   # noqa: E402
 
 NSTATES = 20
-USER = ["A", "B", "C", "D", "E", "F"]
+USER = ["A", "B", "C", "D", "E", "F", "G", "H"]
 for _n in USER:
     signals.append(_n)
 SIG = {n: signals[n] for n in USER}
@@ -70,6 +70,8 @@ def _do_actions(chart, acts, i):
             chart.scribble(a[1])
         elif op == "mark":
             pass
+        elif op == "raise":
+            raise {"IndexError": IndexError, "KeyError": KeyError, "RuntimeError": RuntimeError}[a[1]]("raised by the handler")
         elif op == "call":
             a[1](chart)
         else:
